@@ -431,7 +431,8 @@ Proof.
             assert (Hfp : In f pre) by (rewrite <- Epre; apply in_or_app; right; simpl; auto).
             apply (HSdone (e_path f)); auto.
           + clear IHT1. exists T1. rewrite Emain', app_assoc in Epre. apply app_inj_tail in Epre. destruct Epre as [-> ->]. auto.
-        - exists (align main' Sw). rewrite !app_nil_r in *. rewrite Emain' in Epre. auto. }
+        - exists (align main' Sw). rewrite app_nil_r. split; [| reflexivity].
+          rewrite app_nil_r in Emain'. rewrite <- Emain'. exact Epre. }
       destruct HT as [T0 [EC Etodo]].
       assert (HT0 : forall d, In d T0 -> In d C) by (intros d Hd; rewrite EC; apply in_or_app; right; exact Hd).
       assert (Efilter : filter (fun d => negb (path_eqb (e_path d) (e_path f))) (align main' Sw) = T0).
@@ -465,7 +466,7 @@ Proof.
       * exists (last_dir_path (done ++ [f])). exact Cmain'.
       * intros d Hd. rewrite Emain' in Hd. apply in_app_or in Hd. destruct Hd as [Hd | Hd].
         -- destruct (Wr d Hd) as [o [Ho R]]. exists o. split; auto. rewrite app_assoc. apply in_or_app. left. exact Ho.
-        -- destruct (is_dir f) eqn:D; [| destruct Hd]. destruct Hd as [<- | []]. exists d. repeat split; auto.
+        -- destruct (is_dir f) eqn:D; [| destruct Hd]. destruct Hd as [<- | []]. exists f. repeat split; auto.
            apply in_or_app. right. apply in_or_app. right. simpl; auto.
       * intros o _ Hp. exact Hp.
       * intros o Ho. apply in_app_or in Ho. destruct Ho as [Ho | Ho].
@@ -473,7 +474,7 @@ Proof.
         -- apply in_app_or in Ho. destruct Ho as [Ho | [<- | []]].
            ++ apply in_map_iff in Ho. destruct Ho as [d0 [<- Hd0]]. exists d0. rewrite wm_path, wm_kind. repeat split; auto.
               apply in_or_app. left. apply HCdone, HT0, Hd0.
-           ++ exists o. repeat split; auto. apply in_or_app. right. simpl; auto.
+           ++ exists f. repeat split; auto. apply in_or_app. right. simpl; auto.
       * exact B2.
     + (* another layer: untouched *)
       rewrite !nth_upd_neq by exact Hne.
@@ -481,4 +482,108 @@ Proof.
       * intros o Ho Hp. destruct (Hpaths' _ Hp) as [Hp1 | Hp1]; [apply Ll; auto|].
         exfalso. destruct (Lo o Ho) as [d [Hd [Hpd _]]]. apply (Hfresh d Hd). congruence.
       * intros o Ho. destruct (Lo o Ho) as [d [Hd R]]. exists d. split; auto. apply in_or_app. left. exact Hd.
+Qed.
+
+(* ---- the fold, and the initial state --------------------------------------------------------- *)
+Lemma split_fold_nonok : forall gs own r a, (forall st, a <> Ok st) -> fold_left (split_step gs own) r a = a.
+Proof.
+  induction r as [| f r IH]; intros a H; simpl; auto.
+  assert (E : split_step gs own a f = a) by (destruct a; [exfalso; eapply H; reflexivity | reflexivity ..]).
+  rewrite E. apply IH. exact H.
+Qed.
+
+Lemma chain_fold : forall gs own es rest done st st',
+  wseq es -> es = done ++ rest -> chain_inv gs st done ->
+  fold_left (split_step gs own) rest (Ok st) = Ok st' -> chain_inv gs st' es.
+Proof.
+  intros gs own es. induction rest as [| f r IH]; intros done st st' W E I H.
+  - simpl in H. inversion H; subst. rewrite app_nil_r. exact I.
+  - cbn [fold_left] in H. destruct (split_step gs own (Ok st) f) as [st1| | |] eqn:E1.
+    + apply (IH (done ++ [f]) st1 st'); auto.
+      * rewrite <- app_assoc. exact E.
+      * exact (chain_step gs own es done f r st st1 W E I E1).
+    + rewrite split_fold_nonok in H by (intros; discriminate). discriminate.
+    + rewrite split_fold_nonok in H by (intros; discriminate). discriminate.
+    + rewrite split_fold_nonok in H by (intros; discriminate). discriminate.
+Qed.
+
+Definition init_state (gs : list (list string)) : lstate :=
+  {| s_main := []; s_stacks := repeat [] (S (List.length gs)); s_outs := repeat [] (S (List.length gs)) |}.
+
+Lemma chain_init : forall gs, chain_inv gs (init_state gs) [].
+Proof.
+  intros gs. constructor; cbn [init_state s_main s_stacks s_outs].
+  - reflexivity.
+  - intros d [].
+  - apply repeat_length.
+  - apply repeat_length.
+  - intros w _. rewrite !nth_repeat_nil. constructor.
+    + exists []. reflexivity.
+    + intros d [].
+    + intros o [].
+    + intros o [].
+    + constructor.
+Qed.
+
+Lemma split_chain : forall gs own es layers, wseq es -> split_layers gs own es = Ok layers ->
+  exists st, layers = s_outs st /\ chain_inv gs st es.
+Proof.
+  intros gs own es layers W H. unfold split_layers in H. fold (init_state gs) in H.
+  destruct (fold_left (split_step gs own) es (Ok (init_state gs))) as [st| | |] eqn:E; try discriminate.
+  cbn [rbind] in H. inversion H; subst. exists st. split; auto.
+  apply (chain_fold gs own es es [] (init_state gs) st W eq_refl (chain_init gs) E).
+Qed.
+
+(* what the invariant says of the layers at the end *)
+Lemma split_layers_built : forall gs own es layers, wseq es -> split_layers gs own es = Ok layers ->
+  List.length layers = S (List.length gs) /\
+  forall i, i < List.length layers ->
+    built (nth i layers []) /\
+    (forall o, In o (nth i layers []) -> exists d, In d es /\ e_path d = e_path o /\ e_kind d = e_kind o).
+Proof.
+  intros gs own es layers W H. destruct (split_chain gs own es layers W H) as [st [-> I]].
+  destruct I as [_ _ _ Hlo Hlay]. split; auto. intros i Hi. rewrite Hlo in Hi.
+  destruct (Hlay i Hi) as [_ _ _ Lo Lb]. split; auto.
+Qed.
+
+Lemma Forall_nth_all : forall A (P : A -> Prop) (l : list A) d, (forall i, i < List.length l -> P (nth i l d)) -> Forall P l.
+Proof.
+  intros A P l d H. apply Forall_forall. intros x Hx. apply (In_nth l x d) in Hx. destruct Hx as [i [Hi <-]]. apply H. exact Hi.
+Qed.
+
+Lemma split_layers_wellformed : forall gs own es layers, wseq es -> split_layers gs own es = Ok layers ->
+  Forall LayerWellFormed layers.
+Proof.
+  intros gs own es layers W H. destruct (split_layers_built gs own es layers W H) as [_ Hb].
+  apply (Forall_nth_all _ _ layers []). intros i Hi. apply built_wellformed. apply (Hb i Hi).
+Qed.
+
+(* ---- the walk of a tree with distinct child names is such a sequence -------------------------- *)
+Lemma walk_tree_parent_closed : forall t ev p e, In e (walk_tree ev p t) -> e_path e <> p ->
+  exists d, In d (walk_tree ev p t) /\ is_dir d = true /\ e_path d = parent (e_path e).
+Proof.
+  induction t as [m l h | m cs IH] using tree_ind'; intros ev p e H Hne.
+  - exfalso. destruct (walk_tree_prefix _ _ _ _ H) as [s Hs]. simpl in H. destruct H as [<- | []].
+    apply Hne. unfold file_entry.
+    destruct (match h with Some q => if has_hdr ev p then Some q else None | None => None end); destruct l; reflexivity.
+  - rewrite walk_tree_dir in *. destruct H as [<- | H]; [exfalso; apply Hne; reflexivity|].
+    rewrite walk_forest_sorted in *. apply in_flat_map in H. destruct H as [y [Hy He]].
+    destruct (list_eq_dec string_dec (e_path e) (p ++ [fst y])) as [Eq | Nq].
+    + exists (dir_entry ev p m). split; [left; reflexivity|]. split; [reflexivity|]. rewrite Eq, parent_snoc. reflexivity.
+    + rewrite Forall_forall in IH. assert (Hy' : In y cs) by (apply (proj1 (sort_by_name_in _ _ _)); exact Hy).
+      destruct (IH y Hy' ev (p ++ [fst y]) e He Nq) as [d [Hd R]]. exists d. split; auto.
+      right. apply in_flat_map. exists y. split; auto.
+Qed.
+
+Lemma walk_wseq : forall ev f, wf_names_forest f = true -> wseq (walk ev f).
+Proof.
+  intros ev f H. constructor.
+  - apply walk_SS. exact H.
+  - intros e He. unfold walk in He. rewrite walk_forest_sorted in He. apply in_flat_map in He. destruct He as [y [_ He]].
+    destruct (walk_tree_prefix _ _ _ _ He) as [s Hs]. rewrite Hs. simpl. discriminate.
+  - intros e He Hp. unfold walk in *. rewrite walk_forest_sorted in *. apply in_flat_map in He. destruct He as [y [Hy He]].
+    simpl in He. destruct (list_eq_dec string_dec (e_path e) [fst y]) as [Eq | Nq].
+    + exfalso. apply Hp. rewrite Eq. reflexivity.
+    + destruct (walk_tree_parent_closed _ _ _ _ He Nq) as [d [Hd R]]. exists d. split; auto.
+      apply in_flat_map. exists y. split; auto.
 Qed.
